@@ -132,6 +132,11 @@ def main(tier):
                 ev("FixedArray.ChangingIndex(1, Scalar in v)", lambda: f.ChangingIndex(1, Scalar(cat, ref[1], v)), src_kind="tuple")
                 ev("FixedArray.ChangingIndex(1, (x, None), use_value_unit=False) then GetValues(v)",
                    lambda: f.ChangingIndex(1, Scalar(cat, ref[1], v), use_value_unit=False).GetValues(v), obj=False)
+                ev("FixedArray.ChangingIndex(1, (None, v)): keep the amount, change the unit", lambda: f.ChangingIndex(1, (None, v)), src_kind="tuple")
+                h2 = type("Holder", (), {})()
+                h2.first, h2.second, h2.third = Scalar(cat, VALS[1], u), Scalar(cat, VALS[2], u), Scalar(cat, VALS[3], u)
+                ev("ChangeScalars(owner, first=(x, u), second=(None, v), third=(None, v)): second", lambda: (ChangeScalars(h2, first=(7.25, u), second=(None, v), third=(None, v)), h2.second)[1], idx=[2])
+                ev("ChangeScalars(...): third", lambda: h2.third, idx=[3])
                 # the unit-system manager
                 m = UnitSystemManager()
                 m.AddUnitSystem("sys", "caption", {cat: v})
